@@ -16,10 +16,10 @@ ID = "C18"
 LEVEL = "exploration"
 TECHNIQUE = "bounded-exhaustive enumeration of all DAG pipelines x outputs x argument cuts, lazy vs reference evaluator, task graph vs reference dependency edges"
 RULE = ("the pipelines, outputs and argument combinations of C02 (G-DAG N<=2 decorated + N=3 quick; thorough adds the N=4 single-output family) with lazy=True, "
-        "with and without an active construct_dag() (and, once per pipeline, right after a construct_dag() block that was left through an exception), evaluate() called three times, and every ordered pair of requested outputs "
+        "with and without an active construct_dag() (and, once per pipeline, right after a construct_dag() block that was left through an exception, and with list-valued inputs rendered type-strictly), evaluate() called three times, and every ordered pair of requested outputs "
         "evaluated in both orders on one lazy pipeline - as two plain requests, inside ONE construct_dag() block, and with cache=True on every function. non-trivial = distinct (pipeline, output, cut, mode) with >= 2 functions on the dependency path")
 ASSUMPTIONS = c02.ASSUMPTIONS + ["task-graph nodes whose func is not a PipeFunc are output pickers and are contracted"]
-BUDGET = {"quick": 70.0, "thorough": 900.0}
+BUDGET = {"quick": 110.0, "thorough": 900.0}
 
 
 class _Abort(Exception):
@@ -51,6 +51,14 @@ def check_lazy(spec, out, kw, mode):  # noqa: C901, PLR0912
     res = []
     out_t = tuple(out) if isinstance(out, (list, tuple)) else out
     base = {"deco": spec.get("deco"), "mode": mode, "out_is_tuple": isinstance(out_t, tuple)}
+    if mode == "list-inputs":
+        # every supplied value is a Python LIST (the functions must receive lists, not tuples): rendered strictly
+        kw = {k: [f"{v}0", f"{v}1"] for k, v in kw.items()}
+        terms.STRICT_SEQ = True
+        try:
+            return check_lazy(spec, out, kw, "plain")
+        finally:
+            terms.STRICT_SEQ = False
     if mode == "after-aborted-dag":
         # a construct_dag() block that is left through an exception must leave nothing behind: afterwards a NEW pipeline with
         # the same names but other function bodies (tags ...v2) is evaluated outside any dag
@@ -131,7 +139,7 @@ def check_lazy(spec, out, kw, mode):  # noqa: C901, PLR0912
     return res
 
 
-PAIR_MODES = ("separate", "one-dag", "cache=True")
+PAIR_MODES = ("separate", "one-dag", "cache=True", "one-dag+small-lru")
 
 
 def check_pair(spec, out_a, kw_a, out_b, kw_b, pmode="separate"):
@@ -145,10 +153,13 @@ def check_pair(spec, out_a, kw_a, out_b, kw_b, pmode="separate"):
     rb = gen_dag.ref_eval(spec, out_b, kw_b)
     base = {"mode": "pair" if pmode == "separate" else "pair-" + pmode}
     for first in (0, 1):
-        pl = gen_dag.build(spec, lazy=True, **({"cache": True} if pmode == "cache=True" else {}))
+        extra = {"cache": True} if pmode == "cache=True" else {}
+        if pmode == "one-dag+small-lru":  # the pipeline's OWN cache evicts; inside a dag block the block's cache must be the one used
+            extra = {"cache": True, "cache_type": "lru", "cache_kwargs": {"max_size": 1, "shared": False}}
+        pl = gen_dag.build(spec, lazy=True, **extra)
         terms.LOG.clear()
         try:
-            if pmode == "one-dag":
+            if pmode.startswith("one-dag"):
                 with construct_dag():
                     la, lb = _quiet(pl, out_a, **kw_a), _quiet(pl, out_b, **kw_b)
             else:
@@ -171,6 +182,9 @@ def check_pair(spec, out_a, kw_a, out_b, kw_b, pmode="separate"):
         need_a, need_b = _names(spec, ra.ran), _names(spec, rb.ran)
         if pmode == "separate":
             ok = names == sorted(need_a + need_b)
+        elif pmode.startswith("one-dag"):
+            # inside ONE dag block both requests (same root-argument values) share their nodes: every needed function once
+            ok = names == sorted(set(need_a + need_b))
         else:
             ok = all(1 <= names.count(n) <= need_a.count(n) + need_b.count(n) for n in set(need_a + need_b)) and set(names) <= set(need_a + need_b)
         if not ok:
@@ -188,7 +202,7 @@ def run_spec(spec, acc):
     first = True
     for out, kw, _listed in c02.calls_for(spec, p0):
         deep = gen_dag.depth_of(spec, out) >= 2
-        modes = ("plain", "dag", "after-aborted-dag") if first and deep else ("plain", "dag")
+        modes = ("plain", "dag", "after-aborted-dag", "list-inputs") if first and deep else ("plain", "dag")
         first = first and not deep
         for mode in modes:
             acc.case((gen_dag._key(spec), str(out), tuple(sorted(kw)), mode) if deep else None)
